@@ -64,7 +64,12 @@ class RandomTree:
     def utxo_of(self, absblk):
         cs = self.rec.cs
         blk = self.w.by_abs[absblk]
-        u = cs.unspent_transaction_outs_by_hash[blk.hash()]
+        try:
+            u = cs.unspent_transaction_outs_by_hash[blk.hash()]
+        except KeyError:
+            if self.hdr:
+                return []           # header-only trees need no spendable outputs (the holder of the state may not have taken this block)
+            raise
         rows = []
         for r, o in u.items():
             a = self.rev.get((r.hash, r.index))
@@ -693,6 +698,7 @@ def run(pid, tier, replay=None):
             run_ = node_drv.NodeRun(w3, g3, peers=nodechk.PEERS, tid=tid, clock0=5000)
             try:
                 nrec = nodechk.NodeRec(run_, rng)
+                nrec.assume_valid = True
                 rt = RandomTree(w3, nrec, rng, nkeys=3, p_mut=0.0, hdr=True)
                 lab = []
                 for k in range(12 if quick else 24):
@@ -706,7 +712,7 @@ def run(pid, tier, replay=None):
                         res, m = rt.step()
                         lab.append(["block", res])
                 if run_.events:
-                    ntraces.append(run_.trace())
+                    ntraces.append(dict(run_.trace(), all_valid=True))      # p_mut = 0: every offered block is fully valid on an arrived parent
                     nlabels.append(lab)
                 chk.case(json.dumps(["node", lab]), nontrivial=any(x[0] == "dup" for x in lab))
             finally:
